@@ -22,7 +22,7 @@ TYPES = {
     "optint": (typing.Optional[int], [5, None], ["5", "null"], ["x", [1, 2]]),
 }
 DEFAULTS = {"int": [7, 0], "str": ["d", ""], "listint": [[9], []], "optint": [None, 3], "dictint": [{}], "unionil": [1], "tuple2": [(0, "z")],
-            "andpos": [1], "nested": [None], "posint": [2]}
+            "andpos": [1], "nested": [None], "posint": [2], "xorpos": [12], "noteven": [3]}
 _EXT = {}
 
 
@@ -41,12 +41,16 @@ def ext_types():
     Inner.__module__ = "vmon_generated"
     Pos = Rule.annotate(int, constraints={"ge": 0})
     Even = Rule.annotate(int, constraints={"multiple_of": 2})
+    Small = Rule.annotate(int, constraints={"le": 10})
     _EXT.update({
         "dictint": (typing.Dict[str, int], [{"a": 1}, {}], [{"a": "1"}, [("k", 2)]], [{"a": "x"}, "zzz", {"a": "x", "b": "y"}]),
         "unionil": (typing.Union[int, typing.List[int]], [5, [1]], ["5", ["2"]], ["x", ["x"], {"a": 1}]),
         "tuple2": (typing.Tuple[int, str], [(1, "a")], [["1", "a"], ("2", b"b")], [(1,), ("x", "a"), "q"]),
         "andpos": (LogicalType.all_of(Pos, Even), [4, 0], ["6"], [3, -2, "x"]),
         "posint": (Pos, [3, 0], ["4"], [-1, "x"]),
+        # exclusive-or / negation: their verdict is taken from errors recorded on the context while parsing
+        "xorpos": (LogicalType.one_of(Pos, Small), [12, -4], ["20"], [4, 0, 7]),     # >=0 ^ <=10: both accept 0..10
+        "noteven": (LogicalType.not_of(Even), [3, -1], [], [4, 0, "6"]),
         "nested": (typing.Optional[Inner], [None, {"p": 1}], [{"p": "1", "q": "2"}], [{"q": 1}, {"p": "x", "q": "y"}, 5]),
     })
     return _EXT
